@@ -102,45 +102,59 @@ Proof.
 Qed.
 
 (* ------------------------------------------------------ initiation path *)
+(* under load nothing but (at most) a cookie reply happens *)
+Definition inert_ul (st : state) (r : state * list out) : Prop :=
+  r = (st, []) \/ (loaded st = true /\ exists t c, r = (st, [OCookie t c])).
+
+Lemma inert_ul_idle st r : loaded st = false -> inert_ul st r -> r = (st, []).
+Proof. intros L [H|[H _]]; [exact H|congruence]. Qed.
+
+Theorem under_load_only_cookie st now src oidx m :
+  loaded st = true -> inert_ul st (recv st now src oidx m).
+Proof.
+  intros L. unfold recv. destruct (gate (wire_type m) (m_len m)) as [k|]; [|left; reflexivity].
+  destruct (negb (mac1_ok k m)); [left; reflexivity|]. rewrite L. right. split; [exact L|]. eauto.
+Qed.
+
 Lemma recv_init st now src oidx m :
-  m_kind m = KInit ->
+  m_kind m = KInit -> loaded st = false ->
   recv st now src oidx m = (st, []) \/ recv st now src oidx m = consume_initiation st now src oidx m.
 Proof.
-  intros K. unfold recv. destruct (gate (wire_type m) (m_len m)) as [k|]; [|left; reflexivity].
+  intros K L. unfold recv. destruct (gate (wire_type m) (m_len m)) as [k|]; [|left; reflexivity].
   destruct (mac1_ok k m) eqn:M; [|left; reflexivity].
-  apply mac1_needs_kind in M. subst k. rewrite K. right. reflexivity.
+  apply mac1_needs_kind in M. subst k. rewrite L, K. right. reflexivity.
 Qed.
 
 Theorem initiation_replay_rejected st now src oidx m :
-  m_kind m = KInit -> m_ts m <= last_ts (peers st (m_static m)) ->
+  m_kind m = KInit -> loaded st = false -> m_ts m <= last_ts (peers st (m_static m)) ->
   recv st now src oidx m = (st, []).
 Proof.
-  intros K H. destruct (recv_init st now src oidx m K) as [E|E]; rewrite E; [reflexivity|].
+  intros K L H. destruct (recv_init st now src oidx m K L) as [E|E]; rewrite E; [reflexivity|].
   unfold consume_initiation. repeat (bm; try reflexivity). norm. lia.
 Qed.
 
 Theorem initiation_flood_rejected st now src oidx m :
-  m_kind m = KInit -> now - last_cons (peers st (m_static m)) <= HandshakeInitationRate ->
+  m_kind m = KInit -> loaded st = false -> now - last_cons (peers st (m_static m)) <= HandshakeInitationRate ->
   recv st now src oidx m = (st, []).
 Proof.
-  intros K H. destruct (recv_init st now src oidx m K) as [E|E]; rewrite E; [reflexivity|].
+  intros K L H. destruct (recv_init st now src oidx m K L) as [E|E]; rewrite E; [reflexivity|].
   unfold consume_initiation. repeat (bm; try reflexivity). norm. unfold rate in *. lia.
 Qed.
 
 Theorem unknown_initiator_inert st now src oidx m :
-  m_kind m = KInit -> p_conf (peers st (m_static m)) = false -> recv st now src oidx m = (st, []).
+  m_kind m = KInit -> loaded st = false -> p_conf (peers st (m_static m)) = false -> recv st now src oidx m = (st, []).
 Proof.
-  intros K H. destruct (recv_init st now src oidx m K) as [E|E]; rewrite E; [reflexivity|].
+  intros K L H. destruct (recv_init st now src oidx m K L) as [E|E]; rewrite E; [reflexivity|].
   unfold consume_initiation. repeat (bm; try reflexivity). norm. congruence.
 Qed.
 
 (* AEAD-protected fields: altering them is fatal even when MAC1 is recomputed *)
 Theorem initiation_aead_inert st now src oidx m :
-  m_kind m = KInit ->
+  m_kind m = KInit -> loaded st = false ->
   altered KInit FEphemeral m || altered KInit FEncStatic m || altered KInit FEncTimestamp m = true ->
   recv st now src oidx m = (st, []).
 Proof.
-  intros K H. destruct (recv_init st now src oidx m K) as [E|E]; rewrite E; [reflexivity|].
+  intros K L H. destruct (recv_init st now src oidx m K L) as [E|E]; rewrite E; [reflexivity|].
   unfold consume_initiation, static_opens, timestamp_opens.
   destruct (altered KInit FEphemeral m), (altered KInit FEncStatic m), (altered KInit FEncTimestamp m);
     try discriminate; rewrite ?Bool.andb_false_r; cbn; try reflexivity;
@@ -168,19 +182,19 @@ Definition addressed (st : state) (m : msg) : bool :=
   end.
 
 Lemma recv_resp st now src oidx m :
-  m_kind m = KResp ->
+  m_kind m = KResp -> loaded st = false ->
   recv st now src oidx m = (st, []) \/ recv st now src oidx m = consume_response st src m.
 Proof.
-  intros K. unfold recv. destruct (gate (wire_type m) (m_len m)) as [k|]; [|left; reflexivity].
+  intros K L. unfold recv. destruct (gate (wire_type m) (m_len m)) as [k|]; [|left; reflexivity].
   destruct (mac1_ok k m) eqn:M; [|left; reflexivity].
-  apply mac1_needs_kind in M. subst k. rewrite K. right. reflexivity.
+  apply mac1_needs_kind in M. subst k. rewrite L, K. right. reflexivity.
 Qed.
 
 (* not addressed to a handshake the device has in progress *)
 Theorem unaddressed_response_inert st now src oidx m :
-  m_kind m = KResp -> addressed st m = false -> recv st now src oidx m = (st, []).
+  m_kind m = KResp -> loaded st = false -> addressed st m = false -> recv st now src oidx m = (st, []).
 Proof.
-  intros K H. destruct (recv_resp st now src oidx m K) as [E|E]; rewrite E; [reflexivity|].
+  intros K L H. destruct (recv_resp st now src oidx m K L) as [E|E]; rewrite E; [reflexivity|].
   unfold consume_response. unfold addressed in H.
   destruct (lookup (table st) (m_receiver m)) as [e|]; [|reflexivity].
   destruct (t_hs e); cbn in *; [|reflexivity]. rewrite H. reflexivity.
@@ -199,10 +213,10 @@ Proof.
 Qed.
 
 Theorem response_aead_inert st now src oidx m :
-  m_kind m = KResp -> altered KResp FEphemeral m || altered KResp FEmpty m = true ->
+  m_kind m = KResp -> loaded st = false -> altered KResp FEphemeral m || altered KResp FEmpty m = true ->
   recv st now src oidx m = (st, []).
 Proof.
-  intros K H. destruct (recv_resp st now src oidx m K) as [E|E]; rewrite E; [reflexivity|].
+  intros K L H. destruct (recv_resp st now src oidx m K L) as [E|E]; rewrite E; [reflexivity|].
   unfold consume_response. destruct (lookup (table st) (m_receiver m)) as [t|]; [|reflexivity].
   destruct (negb (t_hs t)); [reflexivity|].
   destruct (negb (hs_state (peers st (t_peer t)) =? 1)); [reflexivity|].
@@ -216,15 +230,17 @@ Qed.
 (* ------------------------------------------------- traces and histories *)
 Definition is_resp (x : out) : bool := match x with OResp _ _ _ _ _ => true | _ => false end.
 
-(* timestamps of the initiations of peer p that were answered, in order *)
+Definition is_trans (x : out) : bool := match x with OTrans _ _ _ _ => true | _ => false end.
+
+(* timestamps of the initiations of peer p that were answered (a response left), in order *)
 Fixpoint acc_ts (p : N) (evs : list event) (os : list (list out)) : list N :=
   match evs, os with
   | e :: evs', o :: os' =>
       match e_body e with
       | BMsg _ m =>
-          match m_kind m, o with
-          | KInit, _ :: _ => if m_static m =? p then m_ts m :: acc_ts p evs' os' else acc_ts p evs' os'
-          | _, _ => acc_ts p evs' os'
+          match m_kind m with
+          | KInit => if existsb is_resp o && (m_static m =? p) then m_ts m :: acc_ts p evs' os' else acc_ts p evs' os'
+          | KResp => acc_ts p evs' os'
           end
       | _ => acc_ts p evs' os'
       end
@@ -273,15 +289,19 @@ Lemma last_ts_mono st e p : last_ts (peers st p) <= last_ts (peers (fst (step st
 Proof. explode; norm; subst; fields; lia. Qed.
 
 Lemma accepted_init_step st e src m :
-  e_body e = BMsg src m -> m_kind m = KInit -> snd (step st e) <> [] ->
+  e_body e = BMsg src m -> m_kind m = KInit -> existsb is_resp (snd (step st e)) = true ->
   last_ts (peers st (m_static m)) < m_ts m /\
   last_ts (peers (fst (step st e)) (m_static m)) = m_ts m.
 Proof.
   intros B K NE. unfold step in *. rewrite B in *.
-  destruct (recv_init st (e_now e) src (e_oidx e) m K) as [E|E]; rewrite E in *; [cbn in NE; congruence|].
-  destruct (consume_initiation st (e_now e) src (e_oidx e) m) as [st' o] eqn:C. cbn [fst snd] in *.
-  destruct (consume_initiation_inv _ _ _ _ _ _ _ C NE) as (_ & L & _ & PE & _).
-  split; [exact L|]. rewrite PE. cbn [peers set_peer]. rewrite N.eqb_refl. reflexivity.
+  destruct (loaded st) eqn:L.
+  - destruct (under_load_only_cookie st (e_now e) src (e_oidx e) m L) as [E|(_ & t & c & E)];
+      rewrite E in NE; cbn in NE; discriminate.
+  - destruct (recv_init st (e_now e) src (e_oidx e) m K L) as [E|E]; rewrite E in *; [cbn in NE; discriminate|].
+    destruct (consume_initiation st (e_now e) src (e_oidx e) m) as [st' o] eqn:C. cbn [fst snd] in *.
+    assert (NE' : o <> []) by (intros X; subst o; cbn in NE; discriminate).
+    destruct (consume_initiation_inv _ _ _ _ _ _ _ C NE') as (_ & Lt & _ & PE & _).
+    split; [exact Lt|]. rewrite PE. cbn [peers set_peer]. rewrite N.eqb_refl. reflexivity.
 Qed.
 
 Lemma acc_ts_bound p : forall evs st,
@@ -296,11 +316,11 @@ Proof.
     assert (Weak : Forall (fun t => last_ts (peers st p) < t)
                      (acc_ts p evs (outs step (fst (step st e)) evs))).
     { eapply Forall_impl; [|exact IHb]. cbn. intros. lia. }
-    destruct (e_body e) as [src m|q inner|q d|] eqn:B; try (split; assumption).
+    destruct (e_body e) as [src m|q inner|q d| |on] eqn:B; try (split; assumption).
     destruct (m_kind m) eqn:K; [|split; assumption].
-    destruct (snd (step st e)) as [|x o] eqn:O; [split; assumption|].
+    destruct (existsb is_resp (snd (step st e))) eqn:NE; cbn [andb]; [|split; assumption].
     destruct (m_static m =? p) eqn:Ep; [|split; assumption].
-    norm. assert (NE : snd (step st e) <> []) by (rewrite O; discriminate).
+    norm.
     destruct (accepted_init_step st e src m B K NE) as [L1 L2]. rewrite Ep in *.
     split.
     + constructor; [exact L1|exact Weak].
@@ -386,9 +406,10 @@ Qed.
 
 (* a response for a dead initiation changes nothing *)
 Lemma dead_inert st now src oidx m :
-  m_kind m = KResp -> dead st (m_static m) (m_ans m) -> recv st now src oidx m = (st, []).
+  m_kind m = KResp -> dead st (m_static m) (m_ans m) -> inert_ul st (recv st now src oidx m).
 Proof.
-  intros K [_ NL]. destruct (recv_resp st now src oidx m K) as [E|E]; rewrite E; [reflexivity|].
+  intros K [_ NL]. destruct (loaded st) eqn:L; [now apply under_load_only_cookie|].
+  left. destruct (recv_resp st now src oidx m K L) as [E|E]; rewrite E; [reflexivity|].
   destruct (consume_response st src m) as [st' o] eqn:C.
   destruct o as [|x o]; [|exfalso].
   - apply consume_response_nil in C. subst. reflexivity.
@@ -398,16 +419,20 @@ Proof.
 Qed.
 
 Lemma accepted_resp_step st e src m :
-  e_body e = BMsg src m -> m_kind m = KResp -> snd (step st e) <> [] ->
+  e_body e = BMsg src m -> m_kind m = KResp -> existsb is_trans (snd (step st e)) = true ->
   live st (m_static m) (m_ans m) /\ hs_state (peers (fst (step st e)) (m_static m)) = 0 /\
   nseq (fst (step st e)) = nseq st.
 Proof.
   intros B K NE. unfold step in *. rewrite B in *.
-  destruct (recv_resp st (e_now e) src (e_oidx e) m K) as [E|E]; rewrite E in *; [cbn in NE; congruence|].
-  destruct (consume_response st src m) as [st' o] eqn:C. cbn [fst snd] in *.
-  destruct (consume_response_inv _ _ _ _ _ C NE) as (t & _ & _ & S & A & P & _ & PE & NS).
-  rewrite P. repeat split; try assumption; try congruence.
-  rewrite PE. cbn [peers set_peer]. rewrite N.eqb_refl. reflexivity.
+  destruct (loaded st) eqn:L.
+  - destruct (under_load_only_cookie st (e_now e) src (e_oidx e) m L) as [E|(_ & t & c & E)];
+      rewrite E in NE; cbn in NE; discriminate.
+  - destruct (recv_resp st (e_now e) src (e_oidx e) m K L) as [E|E]; rewrite E in *; [cbn in NE; discriminate|].
+    destruct (consume_response st src m) as [st' o] eqn:C. cbn [fst snd] in *.
+    assert (NE' : o <> []) by (intros X; subst o; cbn in NE; discriminate).
+    destruct (consume_response_inv _ _ _ _ _ C NE') as (t & _ & _ & S & A & P & _ & PE & NS).
+    rewrite P. repeat split; try assumption; try congruence.
+    rewrite PE. cbn [peers set_peer]. rewrite N.eqb_refl. reflexivity.
 Qed.
 
 (* a response establishes at most one session: once a response answering the
@@ -416,10 +441,10 @@ Qed.
    whatever happens in between *)
 Theorem response_once st e src m evs now' src' oidx' m' :
   seq_ok st ->
-  e_body e = BMsg src m -> m_kind m = KResp -> snd (step st e) <> [] ->
+  e_body e = BMsg src m -> m_kind m = KResp -> existsb is_trans (snd (step st e)) = true ->
   m_kind m' = KResp -> m_static m' = m_static m -> m_ans m' = m_ans m ->
   let st' := final step (fst (step st e)) evs in
-  recv st' now' src' oidx' m' = (st', []).
+  inert_ul st' (recv st' now' src' oidx' m').
 Proof.
   intros SO B K NE K' S' A' st'.
   destruct (accepted_resp_step st e src m B K NE) as ([L1 L2] & Z & NS).
@@ -450,7 +475,7 @@ Theorem response_only_for_latest_initiation st e to p s ts evs now' src' oidx' m
   snd (step st e) = [OInit to p s ts] ->
   m_kind m' = KResp -> m_static m' = p -> m_ans m' <= nseq st ->
   let st' := final step (fst (step st e)) evs in
-  recv st' now' src' oidx' m' = (st', []).
+  inert_ul st' (recv st' now' src' oidx' m').
 Proof.
   intros SO O K' S' A' st'.
   apply dead_inert; [exact K'|]. rewrite S'. apply dead_final.
@@ -461,6 +486,7 @@ Qed.
 (* ------------------------------------------- emitted timestamps increase *)
 Definition is_reset (e : event) : bool :=
   match e_body e with BShift _ _ | BRestart => true | _ => false end.
+(* (BLoad does not touch lastSentHandshake: it is not a reset) *)
 
 Fixpoint mono_from (t : N) (evs : list event) : Prop :=
   match evs with
